@@ -274,6 +274,9 @@ def plus_cases(g, rng, thorough):
         one("ufep0-inherit", prev=pb.to_bytes(), pfn=1, ufep=0, inherited=inherited, rps=rps, trpi=5 if rps else None,
             ptype=1, rru=bits % 2)
     one("ufep0-no-prev", ufep=0, ptype=1)
+    # ... and with scalability negotiated: ELNUM is present, RLNUM is not (5.1.12: RLNUM only when UFEP = 001)
+    for e in range(16):
+        one("ufep0-elnum", opts=2, ufep=0, ptype=1, elnum=e, quant=1 + (5 * e) % 31, extra=(e, 255 - e))
     # cross-field
     for _ in range(20000 if thorough else 2500):
         a = dict(fmt=rng.choice([6, 6, 6, 1, 2, 3, 4, 5]), pcf=rng.below(2), umv=rng.below(2), sac=rng.below(2), ap=rng.below(2),
